@@ -42,12 +42,16 @@ struct Spec {
     /// order of the attested key's parameters: 0 as the builder emits them (crv, x, y), 1 reversed,
     /// 2 rotated - a COSE key is a map, an imported key may list its members in any order; 3 with a kid, 4 with key_ops, 5 with a base IV
     key_order: u8,
+    /// the attested section is set on a value that already has one: 0 no, 1 the setter is called twice
+    /// (another section first), 2 a value carrying another section is encoded, decoded, and the setter
+    /// is called on the decoded value (as when an attestation is rewritten before it is passed on)
+    replaced: u8,
 }
 
 impl Spec {
     fn json(&self, index: u64) -> Value {
         json!({"index": index, "rp": self.rp, "counter": self.counter, "up": self.up, "uv": self.uv, "set_be_bs": self.be_bs,
-            "attested": self.attested.map(|(a, l)| json!({"aaguid": hex_short(&a), "credential_id_len": l})), "extensions": format!("{:?}", self.ext).chars().take(60).collect::<String>(), "second_setter_call_with_nothing_to_add": self.followup, "attested_key_parameter_order": self.key_order})
+            "attested": self.attested.map(|(a, l)| json!({"aaguid": hex_short(&a), "credential_id_len": l})), "extensions": format!("{:?}", self.ext).chars().take(60).collect::<String>(), "second_setter_call_with_nothing_to_add": self.followup, "attested_key_parameter_order": self.key_order, "attested_section_replaces_an_earlier_one": self.replaced})
     }
 }
 
@@ -85,6 +89,7 @@ fn gen(seed: u64, idx: u64) -> Spec {
         },
         followup: if rng.chance(1, 3) { rng.range(1, 4) as u8 } else { 0 },
         key_order: if rng.chance(1, 3) { rng.range(1, 5) as u8 } else { 0 },
+        replaced: { let mut r = Rng::derive(seed, "c12repl", idx); if r.chance(1, 4) { r.range(1, 2) as u8 } else { 0 } },
     }
 }
 
@@ -130,6 +135,14 @@ fn build(s: &Spec, idx: u64) -> Result<Built, String> {
         key_bytes = key.clone().to_vec().map_err(|e| format!("{e:?}"))?;
         cred_id = rng.bytes(len);
         let acd = AttestedCredentialData::new(Aaguid::from(aaguid), cred_id.clone(), key).map_err(|e| format!("constructor refused a {len}-byte id: {e:?}"))?;
+        if s.replaced > 0 {
+            let other_key = CoseKeyBuilder::new_ec2_pub_key(iana::EllipticCurve::P_256, vec![0x11; 32], vec![0x22; 32]).algorithm(iana::Algorithm::ES256).build();
+            let other = AttestedCredentialData::new(Aaguid::from([0x5A; 16]), b"an-earlier-credential".to_vec(), other_key).map_err(|e| format!("{e:?}"))?;
+            ad = ad.set_attested_credential_data(other);
+            if s.replaced == 2 {
+                ad = AuthenticatorData::from_slice(&ad.to_vec()).map_err(|e| format!("authenticator data with an attested section does not decode: {e:?}"))?;
+            }
+        }
         ad = ad.set_attested_credential_data(acd);
     }
     let mut ext_bytes = None;
